@@ -1,5 +1,6 @@
 (** C12 - printing terminates and its work grows polynomially.  Statements only. *)
-From PP Require Import Doc Normalize Layout Fuel PyStr PyVal Printers CostProofs StrTotal Graph GraphProofs.
+From PP Require Import Doc Normalize Layout Fuel PyStr PyVal Printers Pformat CostProofs StrTotal Graph GraphProofs
+  FuelAll StrWeight LinearDocs PolyBound.
 
 (** Layout engine, classic algebra (what the bundled printers build apart from
     strings, the comments' fill and annotations): with M the total size of the
@@ -19,6 +20,62 @@ Theorem C12_lookahead_linear :
 Proof. exact fits_total. Qed.
 Print Assumptions C12_lookahead_linear.
 
+(** The FULL algebra - fill, annotations, align, general and lazily normalised
+    flat_choice, contextual string documents: with the weight [wt] (a
+    flat_choice weighs 1 + the heavier branch, since a look-ahead or the main
+    loop follows exactly one of them) and M the weight of the pending stack,
+    the main loop ends within M + 1 iterations and every look-ahead within M,
+    for every evaluator of contextual documents whose results weigh at most
+    [cb].  Normalisation - eager or on access - never increases the weight. *)
+Theorem C12_layout_all :
+  forall (cb : strp -> nat) (evs : strp -> Z -> Z -> Z -> Z -> doc),
+    (forall p i c w rw, (wt cb (evs p i c w rw) <= cb p)%nat) ->
+    forall fuel ff smart w rw st,
+      (mwt cb (ls_stk st) < fuel)%nat -> (mwt cb (ls_stk st) <= ff)%nat ->
+      layout_loop evs fuel ff smart w rw st <> None.
+Proof. exact layout_total_all. Qed.
+Print Assumptions C12_layout_all.
+
+Theorem C12_lookahead_all :
+  forall (cb : strp -> nat) (evs : strp -> Z -> Z -> Z -> Z -> doc),
+    (forall p i c w rw, (wt cb (evs p i c w rw) <= cb p)%nat) ->
+    forall fuel smart w rw mnl maxw cl stk,
+      (mwt cb stk < fuel)%nat -> fits_loop evs fuel smart w rw mnl maxw cl stk <> None.
+Proof. exact fits_total_all. Qed.
+Print Assumptions C12_lookahead_all.
+
+Theorem C12_normalize_weight : forall cb d, (wt cb (normalize_doc d) <= wt cb d)%nat.
+Proof. exact norm_wt. Qed.
+Print Assumptions C12_normalize_weight.
+
+(** the document the string printer evaluates to - at every indentation,
+    column, page width and ribbon - weighs at most 80 len + 100 *)
+Theorem C12_string_document_weight :
+  forall printable sp isw lb cb p indent column page_width ribbon_width,
+    (wt cb (eval_str printable sp isw lb p indent column page_width ribbon_width) <= 80 * length (sp_s p) + 100)%nat.
+Proof. exact eval_str_weight. Qed.
+Print Assumptions C12_string_document_weight.
+
+(** pformat's document of ANY value - commented, truncated, subclassed, any
+    depth limit - weighs at most 1000 |v|, |v| = nodes + characters of strings
+    and comments ([sorted_ok]: the sorted-order lists the harness supplies are
+    duplicate free; max_seq_len >= 0). *)
+Theorem C12_document_linear :
+  forall sp lb v indent depth maxlen sort, sorted_ok v -> (0 <= maxlen)%Z ->
+    (wt cb_str (top_doc sp lb v indent depth maxlen sort) <= 1000 * vsz v)%nat.
+Proof. exact top_doc_linear. Qed.
+Print Assumptions C12_document_linear.
+
+(** hence the layout of pformat's document ends within 1000 |v| + 1 iterations
+    of the main loop, each look-ahead within 1000 |v|: at most (1000 |v| + 1)^2
+    loop iterations, for every width, ribbon, indent, depth and max_seq_len *)
+Theorem C12_pformat_layout_quadratic :
+  forall printable sp isw lb fuel ff v indent width rw depth maxlen sort,
+    sorted_ok v -> (0 <= maxlen)%Z -> (1000 * vsz v < fuel)%nat -> (1000 * vsz v <= ff)%nat ->
+    sdocs_model printable sp isw lb fuel ff v indent width rw depth maxlen sort <> None.
+Proof. exact sdocs_total. Qed.
+Print Assumptions C12_pformat_layout_quadratic.
+
 (** The string splitter terminates for every positive line width within
     6 * len + 16 iterations (C02_split_total); the traversal of object graphs
     within heap size + 1 nested calls (C13_total); the printers themselves are
@@ -35,6 +92,16 @@ Theorem C12_commented_dict_refuted :
     (2 ^ n <= dleaves (pretty_pv sp lb (nestc n) (cx m) None None))%nat.
 Proof. exact commented_dicts_exponential. Qed.
 Print Assumptions C12_commented_dict_refuted.
+
+Example C12_example_value :
+  sorted_ok (VDict [(VStr [107]%N, VCommented (VList [VInt 1; VTrailing (VTuple [VNone]) [116]%N]) [99; 32; 100]%N);
+                    (VInt 2, VSub (mkCls [84]%N 2%N) (VDict [] []))] [1; 0]%nat) /\
+  vsz (VDict [(VStr [107]%N, VCommented (VList [VInt 1; VTrailing (VTuple [VNone]) [116]%N]) [99; 32; 100]%N);
+              (VInt 2, VSub (mkCls [84]%N 2%N) (VDict [] []))] [1; 0]%nat) = 16%nat.
+Proof.
+  split; [|reflexivity]. cbn. repeat split; try exact I; try apply NoDup_nil.
+  apply NoDup_cons; [cbn; intuition discriminate|]. apply NoDup_cons; [cbn; tauto|apply NoDup_nil].
+Qed.
 
 Example C12_example_classic :
   clna (Group (Cat [Text [97]%N; Nest 4 (Cat [LINE; Text [98]%N]); SOFTLINE])) = true /\
